@@ -114,7 +114,10 @@ func NewWaitCloserFromContext(pctx context.Context, stopFun func(error)) WaitClo
 }
 
 func (w *waitCloser) IsClosed() bool {
-	return w.closed.Load()
+	// a closer derived from a parent is closing as soon as its context is done : the watcher
+	// goroutine records the close (error, stopFun) a moment later, and callers that were woken by
+	// Done() must not read "still open" in between
+	return w.closed.Load() || w.ctx.Err() != nil
 }
 
 func (w *waitCloser) WgAdd(delta int) {
